@@ -43,6 +43,16 @@ theorem obj_some_model (g : Graph) (pm : Option (String × String)) (t : Ty) (h 
   have : objCount t ≠ 0 := fun e => by rw [(hasObj_iff t).2 e] at h; cases h
   omega
 
+/-- the top-level call `process_meta_data(meta, model_name)`: one model for the top-level dict (always a model,
+    `C13.toplevel_always_model`) plus one per inline field dict below it -/
+theorem processMetaData_models_count (g : Graph) (fields : Fields) (name : Option String) :
+    (processMetaData g fields name).1.models.length = g.models.length + 1 + objCountFields fields := by
+  rw [processMetaData_fst]
+  have := (processTy_count (.obj fields) g none).1
+  cases name with
+  | none => simp only [this, objCount]; omega
+  | some n => simp only [List.length_map, this, objCount]; omega
+
 /-! ## 2. which models: the bijection between the new models and the `.obj` nodes -/
 
 /-- **processTy_models** — for a graph whose indices come from its counter: the models after `process_meta_data` are
@@ -152,6 +162,9 @@ def tyEx : Ty :=
 example : objCount tyEx = 4 ∧ objKeys tyEx = [["a", "d", "l"], ["x"], ["y"], ["z"]] := by decide
 
 example : Bounded ({} : Graph) := by simp [Bounded]
+-- … and a non-empty instance: the registry after one `process_meta_data` (so the theorem applies to the next call)
+example : Bounded (processTy {} none tyEx).1 ∧ (processTy {} none tyEx).1.models.length = 4 :=
+  ⟨(processTy_new tyEx {} none (by simp [Bounded])).choose_spec.2.1, rfl⟩
 
 example : (processTy {} none tyEx).1.models.map (fun m => (m.idx, m.fields)) =
     [("1A", [("a", .ptr "1B"), ("d", .dict (.ptr "1C")), ("l", .list (.ptr "1D"))]),
@@ -180,3 +193,4 @@ end J2M.C13S
 #print axioms J2M.C13S.own_model_iff
 #print axioms J2M.C13S.no_obj_no_model
 #print axioms J2M.C13S.obj_some_model
+#print axioms J2M.C13S.processMetaData_models_count
